@@ -240,10 +240,13 @@ def keyword_table(ctx, program, rid):
         want = ("return", "startup" in specs or not specs, "shutdown" in specs, tuple(x for x in specs if x not in ("startup", "shutdown")))
         lst = ListV([Const(x) for x in specs], "list")
         # new subsystem
-        pol = FlowPolicy(program, may_raise_all=False, cancel=False, summaries={"super().validate": lambda i, n, a, k, c, o: [(c, NONE)]})
+        from ..absint import ClassV
+        pol = FlowPolicy(program, may_raise_all=False, cancel=False, summaries={"super().validate": lambda i, n, a, k, c, o: [(c, NONE)]},
+                         globals_={"WaitUntilDecoratorManager": ClassV("WaitUntilDecoratorManager")})
         pol.loop_unroll = 10
         pol.live_lists = True  # a list changed while a for loop walks it is walked as Python's list iterator does
-        heap = {"self.args": lst, "self.kwargs": DictV([]), "self.run_on_startup": Const(False), "self.run_on_shutdown": Const(False)}
+        # the decorator of a function (the words mean nothing inside a task.wait_until: C15)
+        heap = {"self.args": lst, "self.kwargs": DictV([]), "self.run_on_startup": Const(False), "self.run_on_shutdown": Const(False), "self.dm": ObjV("dm", "FunctionDecoratorManager")}
         out = run_flow(program, nuid, pol, args={"self": ObjV("self", "TimeTriggerDecorator")}, heap=heap)
         got = set()
         for k, c, d in exits(out):
